@@ -1,4 +1,5 @@
 import LicenseExpr.Lemmas.Stages
+import LicenseExpr.Lemmas.StrictErr
 import LicenseExpr.Model.Api
 /-!
 # C12 — strict mode enforces the license WITH exception roles exactly
@@ -60,6 +61,50 @@ theorem C12_ltok_iff (c : Cls) (T : Table) (simple : Bool) (text : Str) (out : L
 theorem C12_flags (c : Cls) (f : Sym → Bool) (ts : List STok) (hnp : NoPairs ts) :
     groupWith c false (ts.map (reflagTok f)) = (groupWith c false ts).map (List.map (reflagTok f)) :=
   groupWith_lax_reflag c f ts hnp
+
+/-- **C12 (the error names an offending license)**: when strict grouping refuses a token list that
+    non-strict grouping accepts, the error carries the string and the start of one of the license
+    tokens of that list, and that license has the wrong role: an exception where a license must stand
+    (code PARSE_INVALID_EXCEPTION) or a non-exception on the right of WITH
+    (code PARSE_INVALID_SYMBOL_AS_EXCEPTION). -/
+theorem C12_offending (c : Cls) (ts : List STok) (er : LErr) (out : List STok)
+    (hs : groupWith c true ts = .error er) (hl : groupWith c false ts = .ok out) : ∃ a ∈ ts, RoleFault er a :=
+  groupWith_strict_error c ts er out hs hl
+
+/-- the same for `Licensing.tokenize`: a strict failure on a text that tokenizes non-strictly names a
+    license token of the merged token list (whose positions are positions of the text, C01 / C17) -/
+theorem C12_offending_ltok (c : Cls) (T : Table) (simple : Bool) (text : Str) (er : LErr) (out : List PTok)
+    (hs : ltok c T simple true text = .error er) (hl : ltok c T simple false text = .ok out) :
+    ∃ raw merged, rawTokens c T simple text = .ok raw ∧ mergeUnknown c none raw = .ok merged ∧
+      ∃ a ∈ merged, RoleFault er a := by
+  unfold ltok ltokW at hs hl
+  unfold rawTokens
+  simp only [bind, Except.bind] at hs hl
+  cases h1 : rawTokensW c T (buildTrie c T) simple text with
+  | error e => simp [h1] at hl
+  | ok raw =>
+    simp only [h1] at hs hl
+    cases h2 : mergeUnknown c none raw with
+    | error e => simp [h2] at hl
+    | ok merged =>
+      simp only [h2] at hs hl
+      refine ⟨raw, merged, rfl, h2, ?_⟩
+      cases h3 : groupWith c false merged with
+      | error e => simp [h3] at hl
+      | ok grouped =>
+        cases h4 : groupWith c true merged with
+        | error e =>
+          simp [h4] at hs; subst hs
+          exact C12_offending c merged e grouped h4 h3
+        | ok g2 =>
+          -- strict grouping succeeded: then it equals the non-strict one and the later stage cannot differ
+          have := (C12_group_iff c merged (C12_stage_noPairs c T _ simple text raw merged h1 h2) g2).mp h4
+          rw [h3] at this
+          simp at this
+          obtain ⟨rfl, _⟩ := this
+          simp [h4] at hs
+          simp [h3] at hl
+          rw [hl] at hs; cases hs
 
 /-- non-vacuity: `gpl WITH cp` with `cp` an exception is accepted strictly; with the flags swapped it is not -/
 example : ∃ out, groupWith ⟨fun x => x == 32, fun _ => true, fun x => [x]⟩ true
